@@ -397,7 +397,17 @@ class GNFA(fa.FA):
                     else:
                         r4 = f"|{r4}"
 
-                    if r4 == "?" and len(r1) + len(r2) + len(r3) > 1:
+                    if len(r1) + len(r2) + len(r3) == 0:
+                        # The path through q_rip only reads the empty string,
+                        # so the old expression simply becomes optional
+                        old_r4 = new_transitions[q_i][q_j]
+                        if old_r4 is None or old_r4 == "":
+                            new_transitions[q_i][q_j] = ""
+                        elif len(old_r4) == 1:
+                            new_transitions[q_i][q_j] = f"{old_r4}?"
+                        else:
+                            new_transitions[q_i][q_j] = f"({old_r4})?"
+                    elif r4 == "?" and len(r1) + len(r2) + len(r3) > 1:
                         new_transitions[q_i][q_j] = f"({r1}{r2}{r3}){r4}"
                     else:
                         new_transitions[q_i][q_j] = f"{r1}{r2}{r3}{r4}"
